@@ -19,14 +19,18 @@ def run(tier, seed):
                  "process and is reported), closure (every reference of every object of the new document resolves), single copy and exact copy set (marker objects counted), "
                  "page attributes and operation sequence equal, every used resource present with equal content, unused resources pruned; non-trivial = cyclic graph or a used resource",
             assumptions=["graph objects sit behind the /Font resource and the page's extra entries (plain deep clone); ExtGState and ColorSpace resources are typed leaf values",
-                         "an import that returns Err is acceptable (not generated here)", "XObject, Pattern and Properties resources are not part of this model yet"],
-            exhaustive=True)
+                         "an import that returns Err is acceptable (not generated here)", "Pattern, Shading and Properties resources are not part of this model yet"],
+            exhaustive=True, shards=10)
     except vlib.ToolError as e:
         # a crashed harness (stack overflow / abort while importing) is data about the code under test
-        prog = os.path.join(vlib.WORK, PID, "report.json.progress")
-        if "harness module import failed" in str(e) and os.path.exists(prog):
+        import glob
+        wd = os.path.join(vlib.WORK, PID)
+        progs = [p for p in glob.glob(os.path.join(wd, "report*.json.progress")) if not os.path.exists(p[:-len(".progress")])]
+        if "harness module import failed" in str(e) and progs:
+            prog = progs[0]
             at = int(open(prog).read() or 0)
-            cases = open(os.path.join(vlib.WORK, PID, "cases.ndjson")).read().splitlines()
+            cfile = os.path.join(wd, os.path.basename(prog).replace("report", "cases").replace(".json.progress", ".ndjson"))
+            cases = open(cfile).read().splitlines()
             v = vlib.Verdict(PID)
             v.failure("import:process-died", {"class": "import:process-died", "case": json.loads(cases[at]) if at < len(cases) else None, "error": str(e)})
             rc = v.finish()
